@@ -52,9 +52,10 @@ def gen_links(rng):
 def gen(seed, rng, knobs):
     knobs.update({'retries': rng.choice([3, 5, 20, 100]), 'arc': rng.choice([0, 1, 3]),
                   'airtime': rng.choice([0.0005, 0.001]), 'rate_limit': None})
-    mode = rng.choice(['clean', 'light', 'heavy', 'usb', 'one-dead', 'close-one', 'reopen-one', 'release-dongle'])
+    mode = rng.choice(['clean', 'light', 'heavy', 'usb', 'one-dead', 'close-one', 'reopen-one', 'release-dongle',
+                       'restart-same-object', 'restart-same-object'])
     rates = {}
-    if mode in ('light', 'close-one', 'reopen-one', 'release-dongle'):
+    if mode in ('light', 'close-one', 'reopen-one', 'release-dongle', 'restart-same-object'):
         rates['air'] = [0.05, 0.05]
     elif mode == 'heavy':
         rates['air'] = [0.2, 0.2]
@@ -74,6 +75,14 @@ def gen(seed, rng, knobs):
               'gap': rng.choice([0.0, 0.01, 0.1])}
     elif mode == 'release-dongle':
         ev = {'kind': 'release', 'gap': rng.choice([0.0, 0.01, 0.1])}
+    elif mode == 'restart-same-object':
+        # the Crazyflie reboots (possibly into a firmware / bootloader with another safelink capability) and the same
+        # RadioDriver object is started again: pause() + restart(), or close() + connect()
+        ev = {'kind': 'restart', 'link': rng.randrange(len(links)), 'via': rng.choice(['pause', 'close']),
+              'safelink_after': rng.random() < 0.5, 'gap': rng.choice([0.0, 0.01, 0.1])}
+        if rng.random() < 0.5:
+            del links[1:]
+            ev['link'] = 0
     return {'seed': seed, 'scenario': 'multi-' + mode, 'knobs': knobs, 'links': links, 'event': ev,
             'ops': [[i] for i in range(len(links))]}
 
@@ -131,18 +140,32 @@ class LinkRun:
         s['drv'] = drv
         sim, ctx = self.sim, self.ctx
 
-        def err_cb(msg, s=s):
-            s['errors'].append((sim.now, msg, self.n_results() - s['n_res_from']))
-            ctx.obs('link-error', self.idx, msg[:30])
         s['n_res_from'] = self.n_results()
-        drv.connect(self.uri, None, err_cb)
+        self.sink = s
+        drv.connect(self.uri, None, self._err_cb)
+        self._wrap_queue(drv)
+        self._start_session(s, drv)
+        return s
+
+    def _err_cb(self, msg):
+        s = self.sink
+        s['errors'].append((self.sim.now, msg, self.n_results() - s['n_res_from']))
+        self.ctx.obs('link-error', self.idx, msg[:30])
+
+    def _wrap_queue(self, drv):
         q = drv.out_queue
+        if getattr(q, '_verif_wrapped', False):
+            return
         orig_put = q._put
 
-        def _put(pk, s=s):
-            s['order'].append(bytes([pk.header]) + bytes(pk.data))
+        def _put(pk):
+            self.sink['order'].append(bytes([pk.header]) + bytes(pk.data))
             return orig_put(pk)
         q._put = _put
+        q._verif_wrapped = True
+
+    def _start_session(self, s, drv):
+        sim, ctx = self.sim, self.ctx
         s['stop_rx'] = False
         s['closing'] = False
 
@@ -162,7 +185,61 @@ class LinkRun:
         s['rx'] = rx
         self.sessions.append(s)
         self.cur = s
-        return s
+
+    def _end_session(self, s):
+        s['st']['needs_resending'] = getattr(s['drv'], 'needs_resending', None)
+        s['closed'] = self.sim.now
+        s['res_to'] = len(self.dongle.results)
+        s['rx_to'] = len(self.peer.rx)
+        s['taken_to'] = len(self.peer.tx_taken)
+        self.cur = None
+
+    def restart_same_object(self, via, safelink_after, gap):
+        """Stop the radio thread of the open driver object, reboot the peer, start the same object again."""
+        s = self.cur
+        if s is None:
+            return None
+        drv = s['drv']
+        s['closing'] = True
+        common.wait_until(self.sim, lambda: not s.get('sending'), 3.0, 0.002)
+        s['stop_rx'] = True
+        ok, _, exc = self.ctx.bounded(drv.pause if via == 'pause' else drv.close, 30.0, 'driver.%s-%d' % (via, self.idx))
+        if not ok:
+            self.ctx.violation('6', 'close-hang', 'RadioDriver.%s() of link %d did not return' % (
+                'pause' if via == 'pause' else 'close', self.idx), self.ctx.stack_of('bounded:driver.%s-%d' % (via, self.idx)))
+            return None
+        if exc is not None:
+            self.ctx.violation('6', '%s-raised %s' % (via, type(exc).__name__), 'link %d: %r' % (self.idx, exc))
+            return None
+        s['rx'].join(1.0)
+        while True:
+            pk = drv.receive_packet(0) if drv.in_queue is not None else None
+            if pk is None:
+                break
+            if not (pk.port == 15 and pk.channel == 3):
+                s['received'].append((self.sim.now, bytes([pk.header]) + bytes(pk.data)))
+        self._end_session(s)
+        P.sim_sleep(gap)
+        # the Crazyflie reboots: fresh ESB / safelink state, possibly another capability
+        p = self.peer
+        p.safelink_capable = safelink_after
+        p.has_safelink = False
+        p.curr_up = p.curr_down = 1
+        p.last_pid = p.last_frame = None
+        p.last_ack = b''
+        del p.txq[:]
+        s2 = {'errors': [], 'order': [], 'accepted': [], 'received': [], 'st': {'drv': drv}, 'drv': drv,
+              'res_from': len(self.dongle.results), 'rx_from': len(p.rx), 'taken_from': len(p.tx_taken),
+              'n_res_from': self.n_results(), 'restarted': via}
+        self.sink = s2
+        if via == 'pause':
+            # whatever the application had queued before the pause goes out in the new session
+            drv.restart()
+        else:
+            drv.connect(self.uri, None, self._err_cb)
+        self._wrap_queue(drv)
+        self._start_session(s2, drv)
+        return s2
 
     def start_traffic(self, t0):
         sim, ctx = self.sim, self.ctx
@@ -224,11 +301,7 @@ class LinkRun:
         elif exc is not None:
             self.ctx.violation('6', 'close-raised %s' % type(exc).__name__, 'RadioDriver.close() of link %d raised %r (%s)'
                                % (self.idx, exc, tag))
-        s['closed'] = self.sim.now
-        s['res_to'] = len(self.dongle.results)
-        s['rx_to'] = len(self.peer.rx)
-        s['taken_to'] = len(self.peer.tx_taken)
-        self.cur = None
+        self._end_session(s)
 
 
 class _View:
@@ -236,8 +309,15 @@ class _View:
 
 
 def _safe(L):
-    t = L.cur['drv']._thread if L.cur is not None else None
-    return bool(L.peer.has_safelink and t is not None and t._has_safelink)
+    """Both sides have safelink in the current session: the peer saw the request and the host got its echo."""
+    s = L.cur
+    if s is None or not L.peer.has_safelink:
+        return False
+    probe = bytes([0xFF, 0x05, 0x01])
+    for r, p in zip(L.dongle.results[s['res_from']:], L.dongle.result_peer[s['res_from']:]):
+        if p is L.peer and r[3] == probe and r[1] and bytes(r[4]) == probe:
+            return True
+    return False
 
 
 def execute(ctx):
@@ -315,6 +395,28 @@ def execute(ctx):
         glob['drain_ok'] = common.wait_until(sim, drained, 5.0 + 1.0 * len(links), 0.002)
         for L in live:
             L.cur['st']['drained'] = sim.now
+        if ev.get('kind') == 'restart' and target is not None and target.cur is not None and not target.cur['errors']:
+            s2 = target.restart_same_object(ev['via'], ev['safelink_after'], ev['gap'])
+            if s2 is not None:
+                ctx.probe('same driver object restarted (%s), safelink %s' % (
+                    ev['via'], 'kept' if ev['safelink_after'] == target.spec['safelink'] else 'changed'))
+                for k in range(3):
+                    pk = CRTPPacket()
+                    pk.set_header(3 + k, 1)
+                    pk.data = target.payload('up', 50000 + k, 4 + k)
+                    if s2['drv'].send_packet(pk):
+                        s2['accepted'].append((sim.now, bytes([pk.header]) + bytes(pk.data)))
+                    target.peer.queue_downlink(bytes([0x5D + 0x10 * k]) + target.payload('down', 50000 + k, 4))
+                if _safe(target):
+                    okr = common.wait_until(sim, lambda: len(target.peer.rx) - s2['rx_from'] >= len(s2['order']) and
+                                            not target.peer.txq and len(s2['received']) >= len(target.peer.tx_taken) -
+                                            s2['taken_from'] and s2['drv'].out_queue.empty(), 6.0, 0.002)
+                    if okr:
+                        s2['st']['drained'] = sim.now
+                    else:
+                        glob['drain_ok'] = False
+                else:
+                    P.sim_sleep(0.5)
         if ev.get('kind') == 'release':
             # close every link (the dongle is released by the last one), re-open them all, send one more packet each
             for L in links:
